@@ -15,6 +15,10 @@
    calls, object observably unchanged, object still usable), run through harness/err_harness.c
    under ASan/UBSan/LSan.  A failing row is shrunk to the smallest state that still fails and
    reported as (function, argument class, state).
+5. Allocation failures of the vnadata family followed by further valid use (checks/c11_catalogue.py run_alloc_faults,
+   harness/err_alloc_harness.c + harness/allocwrap.c): for every allocation request k of a call, the call with request
+   k failing, then the same call again, resize / init to sizes up to the failed request with every cell set and read
+   back, save, free - under ASan, compared with the run in which nothing fails.
 """
 import os
 import re
@@ -70,6 +74,8 @@ def run(ctx):
     if info is not None:
         ctx.extra["z0_port_test_strict"] = info["z0"]
         ctx.extra["add_common_prevalidates"] = info["add_common_prevalidates"]
+        ctx.extra["check_parameter_recurses"] = info["check_parameter_recurses"]
+        ctx.extra["get_parameter_recurses"] = info["get_parameter_recurses"]
         ctx.extra["generated_orders"] = dict((k, "".join(v)) for k, v in sorted(info["orders"].items()))
         ctx.extra["functions_without_null_test"] = sorted(k for k, (n, m) in info["handles"].items() if not n
                                                           and not k.startswith(("vnaproperty_", "vnacal_new_solve_internal")))
@@ -85,7 +91,7 @@ def run(ctx):
         if info["order_notes"]:
             ctx.notes.append("order translator: " + "; ".join(info["order_notes"]))
         ok, res = ctx.coq_obligations(["Err/OrderProofs.v", "Err/ContractProofs.v", "Err/ContractProofs2.v", "Err/NewProofs.v",
-                                       "Err/DataGetters.v", "Properties_C11.v"])
+                                       "Err/DataGetters.v", "Err/HistProofs.v", "Properties_C11.v"])
         if not ok:
             log = getattr(ctx, "_last_coq_log", "")
             m = re.search(r'File "\./([^"]+)", line (\d+)', log)
@@ -107,9 +113,20 @@ def run(ctx):
         if drv is not None:
             cat.model_tie(ctx, runner, drv, broken)
             cat.model_tie2(ctx, runner, drv, broken)
+            cat.history_tie(ctx, runner, drv, broken)
 
     # ------------------------------------------------------------------ 4. catalogue
     cat.run_catalogue(ctx, runner)
+    cat.history_pairs_new(ctx, runner)
+
+    # ------------------------------------------------------------------ 5. allocation failures, then further use
+    try:
+        exe_a = ctx.build_harness("err_alloc_harness", san=True, wrap=True)
+    except vplib.BuildError as e:
+        broken["harness:err_alloc_harness"] = str(e)[-600:]
+        ctx.obligation("catalogue:usable-after-allocation-failure", False, "harness does not build")
+    else:
+        cat.run_alloc_faults(ctx, exe_a, ctx.run_env(leak=False))
 
     ctx.extra["skipped"] = [{"what": w, "reason": r} for w, r in cat.SKIPPED]
     if runner.leak_reports:
@@ -132,7 +149,8 @@ def fresh_driver(ctx, info, broken):
     order, the orders of checks and writes); ask the executable which facts it was extracted with and
     re-extract when they are not those of the working tree."""
     want = "".join("1" if info["z0"][f] else "0" for f in errno_table.Z0_FILES) + (
-        "1" if info["add_common_prevalidates"] else "0") + "-%d" % info["orders_digest"]
+        "1" if info["add_common_prevalidates"] else "0") + ("1" if info["check_parameter_recurses"] else "0") + (
+        "1" if info["get_parameter_recurses"] else "0") + "-%d" % info["orders_digest"]
     for attempt in (0, 1):
         try:
             drv = ctx.ocaml_driver("drv_err")
